@@ -349,10 +349,15 @@ def pick_inject(rng, cfg, stop, horizon):
         return out
     i = rng.randint(1, n)
     m = rng.choice([x for x in range(1, n + 1) if x != i])
-    t0 = rng.randint(0, horizon // 2)
+    if rng.random() < 0.6:
+        # right after a probe tick of i: a ping of i (possibly to m) is in flight, its ack will arrive
+        k0 = rng.randint(1, max(1, horizon // (2 * cfg.I)))
+        t0 = cfg.offsets[i - 1] + k0 * cfg.I + rng.choice((0, 1, max(1, cfg.D // 2), cfg.D))
+    else:
+        t0 = rng.randint(0, horizon // 2)
     k = rng.randint(0, 1)
     out.append((t0, i, [(m, "dead", k)]))
-    for _ in range(rng.randint(1, 4)):
+    for _ in range(rng.randint(0, 4)):
         out.append((rng.randint(t0, horizon), i, [(m, rng.choice(("alive", "alive", "suspect")), rng.randint(0, k + 1))]))
     if rng.random() < 0.5:      # the same rumours reach a second member
         j = rng.choice([x for x in range(1, n + 1) if x not in (i, m)])
@@ -436,7 +441,7 @@ def phi_trace(rng, tid):
     style = rng.choice(("regular", "jitter", "bursty", "drift"))
     t = rng.choice((0.0, 0.0, 12.5, 1000.0))
     s = []
-    US = 1_000_000
+    US = 10_000             # instants in 0.1 ms (only their order is judged; 32-bit integers in TLC)
 
     def sample(x):
         s.append({"k": 1, "t": int(round(x * US)), "v": phi_int(det.phi(x))})
@@ -472,8 +477,9 @@ def phi_trace_from_sim(w, tid, rng):
     else:
         s.append({"k": 0, "t": int(round(lh * 1e6)), "v": 0})
     x = lh
+    span = max(end - lh, w.cfg.interval_s)
     for _ in range(40):
-        x = x + (end - lh) * rng.choice((0.0, 0.002, 0.01, 0.05, 0.2))
+        x = x + span * rng.choice((0.0, 0.002, 0.01, 0.05, 0.2))
         s.append({"k": 1, "t": int(round(x * 1e6)), "v": phi_int(det.phi(x))})
     return {"id": tid, "tol": 1, "s": s}
 
